@@ -163,7 +163,13 @@ func init() {
 				}
 			}
 			if nonFinite {
-				o.count("non-finite-output")
+				if strings.Contains(key, "expFromZero") {
+					o.count("non-finite-output-from-exp")
+				} else {
+					mf := m
+					mf.Stage, mf.Class = "finite-state", ""
+					o.Oracle(mf, false, "a bias produced a non-finite number although the request has only finite numbers and no exponential function")
+				}
 				continue
 			}
 			// states handed on
